@@ -529,6 +529,149 @@ func (ff *FuncFacts) phiCondFacts(cond ssa.Value, truth bool) FactSet {
 	return acc
 }
 
+// substPhiCond evaluates a branch condition that tests a phi (directly,
+// negated, or compared with a constant) for the value arriving from
+// predecessor index i: either decided statically, or a list of atoms that
+// must hold for the branch outcome `truth`.
+func (fa *Facts) substPhiCond(cond ssa.Value, truth bool, phiBlock *ssa.BasicBlock, i int) (atoms []string, decided, val, applicable bool) {
+	for {
+		u, ok := cond.(*ssa.UnOp)
+		if !ok || u.Op != token.NOT {
+			break
+		}
+		cond, truth = u.X, !truth
+	}
+	switch x := cond.(type) {
+	case *ssa.Phi:
+		if x.Block() != phiBlock {
+			return nil, false, false, false
+		}
+		e := x.Edges[i]
+		if b, ok := constBool(e); ok {
+			return nil, true, b == truth, true
+		}
+		return fa.condAtoms(e, truth, 0), false, false, true
+	case *ssa.BinOp:
+		if x.Op != token.EQL && x.Op != token.NEQ {
+			return nil, false, false, false
+		}
+		var phi *ssa.Phi
+		var other ssa.Value
+		if p, ok := x.X.(*ssa.Phi); ok {
+			phi, other = p, x.Y
+		} else if p, ok := x.Y.(*ssa.Phi); ok {
+			phi, other = p, x.X
+		}
+		if phi == nil || phi.Block() != phiBlock {
+			return nil, false, false, false
+		}
+		oc, isConst := stripConv(other).(*ssa.Const)
+		if !isConst {
+			return nil, false, false, false
+		}
+		e := phi.Edges[i]
+		if ec, ok := stripConv(e).(*ssa.Const); ok {
+			same := (ec.Value == nil && oc.Value == nil) || (ec.Value != nil && oc.Value != nil && ec.Value.ExactString() == oc.Value.ExactString())
+			return nil, true, (same == (x.Op == token.EQL)) == truth, true
+		}
+		if oc.Value == nil && knownNonNilErr(e) {
+			return nil, true, (x.Op == token.NEQ) == truth, true
+		}
+		op := x.Op
+		if !truth {
+			op = negOp(op)
+		}
+		a := describe(e) + " " + op.String() + " " + describe(oc)
+		if _, ok := fa.mentions[a]; !ok {
+			var fs []*types.Var
+			collectFields(e, &fs, 0)
+			fa.mentions[a] = fs
+		}
+		return []string{a}, false, false, true
+	}
+	return nil, false, false, false
+}
+
+// PhiFeasible returns, for assumption set H, a predicate telling whether the
+// path pred -> phiBlock -> succ is feasible when phiBlock's branch tests a phi
+// whose value is determined by the incoming edge.
+func (fa *Facts) PhiFeasible(H ...string) func(phiBlock, pred, succ *ssa.BasicBlock) bool {
+	hs := HSet(H...)
+	return func(pb, pred, succ *ssa.BasicBlock) bool {
+		if len(pb.Instrs) == 0 {
+			return true
+		}
+		iff, ok := pb.Instrs[len(pb.Instrs)-1].(*ssa.If)
+		if !ok || len(pb.Succs) != 2 || pb.Succs[0] == pb.Succs[1] {
+			return true
+		}
+		idx := -1
+		for i, p := range pb.Preds {
+			if p == pred {
+				idx = i
+			}
+		}
+		if idx < 0 {
+			return true
+		}
+		atoms, decided, val, app := fa.substPhiCond(iff.Cond, pb.Succs[0] == succ, pb, idx)
+		if !app {
+			return true
+		}
+		if decided {
+			return val
+		}
+		// what the edge pred->phiBlock itself establishes also counts
+		local := hs
+		if ea := fa.edgeAtoms(pred, pb); len(ea) > 0 {
+			local = map[string]bool{}
+			for k := range hs {
+				local[k] = true
+			}
+			for _, a := range ea {
+				local[a] = true
+			}
+		}
+		for _, a := range atoms {
+			if contradicts(canonAtom(a), local) {
+				return false
+			}
+		}
+		return true
+	}
+}
+
+// isPhiTestBlock: the block's branch tests a phi defined in the block itself.
+func isPhiTestBlock(b *ssa.BasicBlock) bool {
+	if len(b.Instrs) == 0 {
+		return false
+	}
+	iff, ok := b.Instrs[len(b.Instrs)-1].(*ssa.If)
+	if !ok {
+		return false
+	}
+	cond := iff.Cond
+	for {
+		u, ok := cond.(*ssa.UnOp)
+		if !ok || u.Op != token.NOT {
+			break
+		}
+		cond = u.X
+	}
+	switch x := cond.(type) {
+	case *ssa.Phi:
+		return x.Block() == b
+	case *ssa.BinOp:
+		if p, ok := x.X.(*ssa.Phi); ok && p.Block() == b {
+			return true
+		}
+		if p, ok := x.Y.(*ssa.Phi); ok && p.Block() == b {
+			return true
+		}
+	}
+	return false
+}
+
 // edgeOutBasic: like edgeOut but without phi refinement (no recursion).
 func (ff *FuncFacts) edgeOutBasic(pred, succ *ssa.BasicBlock) FactSet {
 	st := ff.out[pred].clone()
